@@ -602,12 +602,24 @@ func (c *schemeComp) Exec(op string) (res, mon, class string, nontrivial bool) {
 		}
 	}()
 	obj, perr := c.parse(pos, form, kind, addr)
-	if perr != nil && form == "yaml" && errClass(perr) == "other" && !strings.HasPrefix(strings.TrimSpace(addr), "}") {
-		// goccy/go-yaml v1.8.1 very rarely (about 1 in 10^4 loads, only seen with '#' in a value) reports a
-		// spurious second document ("Could not decode element at position 2"); the same bytes load on the
-		// next attempt.  Third-party and nondeterministic: retry, and keep '#' out of generated YAML ops.
-		for i := 0; i < 3 && perr != nil && errClass(perr) == "other"; i++ {
-			obj, perr = c.parse(pos, form, kind, addr)
+	if perr != nil && form == "yaml" && !strings.HasPrefix(strings.TrimSpace(addr), "}") {
+		// goccy/go-yaml v1.8.1 very rarely (about 1 in 10^4 loads) reports a spurious error for bytes that load
+		// on the next attempt ("Could not decode element at position 2", or an error that then lands in another
+		// class).  Third-party and nondeterministic: a genuine configuration error repeats identically, so the
+		// outcome is taken only when two consecutive attempts agree.
+		outcome := func(e error) string {
+			if e == nil {
+				return "ok"
+			}
+			return errClass(e)
+		}
+		for i := 0; i < 4; i++ {
+			obj2, perr2 := c.parse(pos, form, kind, addr)
+			same := outcome(perr2) == outcome(perr)
+			obj, perr = obj2, perr2
+			if same {
+				break
+			}
 		}
 	}
 	if perr != nil {
